@@ -159,7 +159,7 @@ func independent(a, b dag.Ev) bool {
 // checkDag runs all requested variants on one DAG (given in reference order).
 func checkDag(evs []dag.Ev, n int, it DagItem, res *DagResult, label string) {
 	res.Dags++
-	base := dag.RunOpts{N: n, CacheSize: 10000, Bare: strings.HasPrefix(it.Source, "enum:")}
+	base := dag.RunOpts{N: n, CacheSize: 10000, Bare: strings.HasPrefix(it.Source, "enum:") || strings.HasPrefix(it.Source, "named:")}
 	ref := dag.Run(evs, base)
 	res.Runs++
 	res.Inserts += len(evs)
@@ -187,6 +187,9 @@ func checkDag(evs []dag.Ev, n int, it DagItem, res *DagResult, label string) {
 		res.Sample = describeDag(evs)
 	}
 	report := func(key, variant, diff string, order []int) {
+		if strings.HasPrefix(it.Source, "named:") {
+			key = it.Source + "/" + key // hand-drawn DAGs are identified in the key (known findings are listed per input)
+		}
 		res.Viol = append(res.Viol, ev.Violation{Property: "C03", Key: key,
 			What:   fmt.Sprintf("%s, variant %s: %s", label, variant, diff),
 			Replay: map[string]interface{}{"dag": label, "variant": variant, "order": order, "events": describeDag(evs), "devs": it.Devs}})
@@ -595,6 +598,12 @@ func init() {
 			n := sc.Cfg.N
 			x.Close()
 			checkDag(evs, n, it, res, it.Source)
+		case "named":
+			evs, n := namedDag(p[1])
+			if evs == nil {
+				return nil, fmt.Errorf("unknown named DAG %s", p[1])
+			}
+			checkDag(evs, n, it, res, it.Source)
 		case "enum":
 			n, max := atoi(p[1]), atoi(p[2])
 			var prefix []int
@@ -671,6 +680,11 @@ func init() {
 			phases = append(phases, phase{"all fork-free DAGs n=2, 4..10 events (other-parent in {none for first, last, second-last})", enumItems(2, 10, 4, small)})
 			phases = append(phases, phase{"all fork-free DAGs n=3, 4..7 events", enumItems(3, 7, 3, small)})
 		}
+		phases = append(phases, phase{"hand-drawn 4-creator DAGs of the repository's 'funky' shape (a creator's next witness precedes another creator's first descendant of its previous witness), plain and stacked on an extra round; a 76-event DAG whose round-1 fame election goes through a coin round", []DagItem{
+			{Source: "named:funky", Variants: []string{"orders", "batch", "cuts", "cache"}, Level: 1, Static: true},
+			{Source: "named:funkystacked", Variants: []string{"orders", "batch", "cuts", "cache"}, Level: 1, Static: true},
+			{Source: "named:coinround", Variants: []string{"orders", "batch", "cuts"}, Level: 1, Static: true},
+		}})
 		// (b) harvested DAGs
 		var hv []DagItem
 		for _, s := range []string{scStatic3, scStatic4, scSilent4, scLate4, scSilent5} {
